@@ -604,6 +604,8 @@ class Checker:
             extra += ' parameter-types=%s' % rec['case']['ptypes']
         if rec['case'].get('reuse'):
             extra += ' mapping-dicts=caller-owned,re-used'
+        if rec['case'].get('single'):
+            extra += ' to_single_waveform=%s' % rec['case']['single']
         return 'kinds=%s params=%s cm=%s mm=%s%s' % ('/'.join(rec['meta']['kinds']), rec['case']['params'],
                                                     rec['case']['cm'], rec['case']['mm'], extra)
 
